@@ -65,7 +65,7 @@ RAP0 = ("retained messages replayed on SUBSCRIBE carry RETAIN=1 only when the su
 openf('C08', 'kf_retained_replay_rap0', 'a retained WILL replayed to a later subscriber without Retain-As-Published arrives with RETAIN=0: ' + RAP0, 'corpus/C08/kf.sx (kf_rap0)')
 # repaired by b58c5a8
 # openf('C08', 'kf_retained_replay_no_subid', 'a retained will replayed at SUBSCRIBE time does not carry the Subscription Identifier of the subscription that caused the replay (subscribeHandler builds the replayed message without it)', 'corpus/C08/kf.sx (kf_no_subid)')
-openf('C08', 'kf_shared_filter_matches_dollar_topic', 'a will published to a topic beginning with $ is delivered to a member of $share/g/# (or $share/g/+/..): the MQTT-4.7.2-1 exclusion is applied to the non-shared tries only (TrieDB.IterateLocked / iterateShared)', 'corpus/C08/kf.sx (kf_shared_dollar)')
+# repaired by 8c233d3: openf('C08', 'kf_shared_filter_matches_dollar_topic', 'a wil...
 openf('C03', 'kf_replay_exceeds_smaller_recvmax', "after a reconnect with a smaller Receive Maximum (or max_inflight) than the session had before, pollInflights retransmits ALL in-flight entries at once, exceeding the new connection's window", 'corpus/C03/kf.sx')
 openf('C04', 'kf_recvmax_dup_qos2', 'a retransmitted (DUP) QoS 2 PUBLISH arriving while the Receive Maximum quota is used up is answered by DISCONNECT 0x93 although it is no new message (readLoop counts packets, not identifiers)', 'corpus/C04/kf.sx (kf_dup_at_full_quota)')
 openf('C12', 'kf_redelivery_after_expiry', 'an in-flight QoS>0 message is retransmitted after a reconnect although its Message Expiry Interval has passed (ReadInflight does not check expiry)', 'corpus/C12/hand.sx (h_redeliv_expired)')
@@ -79,18 +79,19 @@ openf('C17', 'kf_shared_span', 'federation: a share group spanning nodes is serv
 openf('C19', 'kf_authmethod_present', 'a v5 CONNECT carrying an Authentication Method (even zero-length) is refused although user name and password are those of an account: connectHandler routes it to enhanced auth, no OnEnhancedAuth hook is installed, the auth plugin is never consulted (fails closed; only the "if" direction of accept-iff fails)', 'corpus/C19/kf.sx (k_authmethod)')
 openf('C07', 'kf_retained_replay_rap0', 'a retained message replayed on SUBSCRIBE without Retain-As-Published (always the case for 3.x clients) arrives with RETAIN=0: ' + RAP0, 'corpus/C07/kf.sx (m1_rap0)')
 openf('C07', 'kf_same_filter_twice_last_wins', 'a SUBSCRIBE listing the same filter twice processes both entries with the options (QoS, RAP) of the last one: SubscribeRequest.Subscriptions is a map keyed by filter name (part of the OnSubscribe hook API); e.g. QoS 0 requested first is granted QoS 2 and the replay loses RETAIN although that entry had RAP', 'corpus/C07/kf.sx (m3_twice)')
-openf('C07', 'kf_shared_filter_matches_dollar_topic', 'live forwarding through $share/g/# or $share/g/+ matches topics beginning with $ (MQTT-4.7.2-1 is applied to the non-shared tries only); met by the C07 oracle when it attributes RETAIN flags to copies', 'corpus/C07/kf.sx (m4_dollar)')
+# repaired by 8c233d3: openf('C07', 'kf_shared_filter_matches_dollar_topic', 'live ...
 fixed('C07', 'f3105bb', 'a 3.x client subscribing to $share/g/<filter> got the matching retained messages replayed (isShared was set only in the MQTT 5 branch of subscribeHandler)', 'corpus/C07/fixed.sx (fx_v3shared)')
 fixed('C08', 'b58c5a8', 'retained messages (incl. retained wills) replayed on SUBSCRIBE did not carry the Subscription Identifier of the subscription that caused the replay', 'corpus/C08/fixed.sx (fx_no_subid)')
 fixed('C01', '3c91d06', 'a PUBLISH with an empty topic name and no topic alias was accepted and queued for every subscription of every client (the store reads an empty TopicName as "no topic given")', 'Props/C01.v Example C01_empty_topic_reaches_everyone (model before the repair); corpus/C06/fixed.sx')
 fixed('C06', '3c91d06', 'PUBLISH with an empty topic name and no v5 Topic Alias was accepted by the decoder', 'corpus/C06/fixed.sx')
 fixed('C06', '90fcd9c', 'ValidTopicName/ValidTopicFilter/ValidV5Topic refused the legal character U+FFFD', 'corpus/C06/fixed.sx')
-openf('C11', 'kf_shared_filter_matches_dollar_topic', 'a message published to a topic beginning with $ is queued for a member of $share/g/# (or $share/g/+/..): the MQTT-4.7.2-1 exclusion is applied to the non-shared tries only', 'corpus/C11/kf.sx')
+# repaired by 8c233d3: openf('C11', 'kf_shared_filter_matches_dollar_topic', 'a mes...
 openf('C13', 'kf_retransmission_exceeds_max_packet_size', 'in-flight messages are retransmitted after a reconnect without regard to the Maximum Packet Size declared on the new connection (ReadInflight / pollInflights have no size filter)', 'corpus/C13/kf.sx')
 openf('C13', 'kf_connack_exceeds_client_max_packet_size', 'the CONNACK (34 bytes with all its properties) is sent to a client that declared a smaller Maximum Packet Size', 'corpus/C13/kf.sx')
 openf('C13', 'kf_resend_at_full_quota_disconnected', 'a client that repeats (DUP) a QoS 2 PUBLISH while all Receive Maximum slots are open is disconnected with 0x93 although it has no more than Receive Maximum identifiers outstanding (same cause as C04 kf_recvmax_dup_qos2)', 'corpus/C13/kf.sx')
 fixed('C13', 'ef0c317', 'the Topic Alias property added by writeLoop after the size check pushed a PUBLISH of exactly the allowed size 3-4 bytes over the client Maximum Packet Size (follow-up 3ae2a13 counts subscription identifiers)', 'corpus/C13/fixed.sx')
 openf('C14', 'kf_connack3_carries_v5_code', 'a 3.1/3.1.1 CONNECT refused by an auth hook with an MQTT 5 reason code (>= 0x80) is answered with return code 0x87, which is no 3.x return code (sendErrConnack assigns codes.NotAuthorized instead of codes.V3NotAuthorized); still a failing CONNACK; the pinned TestClient_connectWithTimeOut_BasicAuth asserts 0x87, so it cannot be repaired without editing it', 'corpus/C14/kf.sx')
+fixed('C11', '8c233d3', 'shared subscriptions with a leading wildcard ($share/g/#, $share/g/+/..) matched topic names beginning with $: MQTT-4.7.2-1 was applied to the non-shared tries only (was kf_shared_filter_matches_dollar_topic under C07, C08, C11)', 'corpus/C11/fixed_dollar.sx, corpus/C07/fixed.sx, corpus/C08/fixed.sx')
 C06 = {
     'kf_alloc_upfront': 'Unpack allocates the declared Remaining Length before reading (5 bytes of input make the broker allocate up to 256 MiB)',
     'kf_varint_noncanonical': 'non-minimal Remaining Length / Property Length / Subscription Identifier encodings are accepted; TotalBytes then differs from the bytes read (c08000)',
